@@ -1,7 +1,7 @@
 import MayVerif.Proof.Sync.Mutex.Inv
 namespace MayVerif.Mutex
 
-set_option maxHeartbeats 2000000 in
+set_option maxHeartbeats 6000000 in
 theorem inv_w3pop (n : Nat) (sh : Sh) (pcs : Tid → Pc) (t : Tid) (e : Env) (k : K) (hlt : t < n)
     (h : Inv ⟨n, sh, pcs⟩) (hpc : pcs t = (.w3pop k)) (sh' : Sh) (pc' : Pc)
     (hts : tstep sh t (.w3pop k) e = some (sh', pc')) : Inv ⟨n, sh', upd pcs t pc'⟩ := by
